@@ -73,7 +73,14 @@ pub fn collect_reads(node: &Node, sheet: u32, row: i32, col: i32, names: &dyn Fn
         WrongReferenceKind { .. } | WrongRangeKind { .. } | TableNameKind(_) | ParseErrorKind { .. } => {
             *opaque = true;
         }
-        DefinedNameKind(_) | NamedVariableKind { .. } | LambdaDefKind { .. } => {
+        DefinedNameKind(d) => {
+            // a name that is a plain (absolute) reference or range is resolved; anything else is opaque
+            match parse_name_target(&d.2, names) {
+                Some(r) => out.push(r),
+                None => *opaque = true,
+            }
+        }
+        NamedVariableKind { .. } | LambdaDefKind { .. } => {
             *opaque = true;
         }
         OpRangeKind { left, right }
@@ -102,6 +109,35 @@ pub fn collect_reads(node: &Node, sheet: u32, row: i32, col: i32, names: &dyn Fn
         }
         UnaryKind { right, .. } => collect_reads(right, sheet, row, col, names, out, opaque),
     }
+}
+
+/// `Sheet1!$F$7:$H$9` / `'My Sheet'!$A$1` -> the rectangle
+fn parse_name_target(formula: &str, names: &dyn Fn(&str) -> Option<u32>) -> Option<Rect> {
+    let f = formula.strip_prefix('=').unwrap_or(formula);
+    let (sheet, cells) = f.rsplit_once('!')?;
+    let sheet = sheet.trim_matches('\'').replace("''", "'");
+    let si = names(&sheet)?;
+    let cell = |t: &str| -> Option<(i32, i32)> {
+        let t = t.replace('$', "");
+        let letters: String = t.chars().take_while(|c| c.is_ascii_alphabetic()).collect();
+        let digits = &t[letters.len()..];
+        if letters.is_empty() || digits.is_empty() || !digits.chars().all(|c| c.is_ascii_digit()) {
+            return None;
+        }
+        let mut c = 0i32;
+        for ch in letters.to_ascii_uppercase().chars() {
+            c = c * 26 + (ch as i32 - 'A' as i32 + 1);
+        }
+        Some((digits.parse().ok()?, c))
+    };
+    let (a, b) = match cells.split_once(':') {
+        Some((a, b)) => (cell(a)?, cell(b)?),
+        None => {
+            let a = cell(cells)?;
+            (a, a)
+        }
+    };
+    Some(Rect { sheet: si, r0: a.0, c0: a.1, r1: b.0, c1: b.1 }.norm())
 }
 
 pub fn units(model: &Model) -> Vec<Unit> {
@@ -134,7 +170,10 @@ pub fn units(model: &Model) -> Vec<Unit> {
             let mut reads = Vec::new();
             let mut opaque = false;
             match model.parsed_formulas.get(si).and_then(|v| v.get(f as usize)) {
-                Some((node, _)) => collect_reads(node, sheet, r, c, &|_| None, &mut reads, &mut opaque),
+                Some((node, _)) => {
+                    let lookup = |name: &str| wb.worksheets.iter().position(|w| w.get_name().eq_ignore_ascii_case(name)).map(|i| i as u32);
+                    collect_reads(node, sheet, r, c, &lookup, &mut reads, &mut opaque)
+                }
                 None => opaque = true,
             }
             out.push(Unit { sheet, row: r, col: c, block, is_array, is_dynamic, reads, opaque });
